@@ -256,7 +256,7 @@ def run_ties(res, rng, quick):
     from props import c02
     header = c02.HEADER.replace('C02.Exec.', 'C02.Text C02.Exec.') \
         + 'From Coq Require Import String.\n'
-    n_text = 400 if quick else 5000
+    n_text = 300 if quick else 3500
 
     # ---- content() ----
     cases = []
@@ -361,4 +361,96 @@ def run_ties(res, rng, quick):
                       f'{[toks[i] for i in bad[:5]]} {errs[:1]}',
                       {'theorem_or_correspondence': 'tie:to_float',
                        'input': {'tokens': [toks[i] for i in bad[:10]]}},
+                      found_input=False)
+
+
+# ---- the linked pipeline: a card with a TR number (coq/C02/LinkC04.v) ----
+
+LINK_TAGS = ['px', 'py', 'pz', 'p', 'so', 's', 'sx', 'sy', 'sz', 'c/x', 'c/y',
+             'c/z', 'cx', 'cy', 'cz', 'kx', 'ky', 'kz', 'k/x', 'k/y', 'k/z',
+             'kx1', 'ky1', 'kz1', 'k/x1', 'k/y1', 'k/z1', 'sq', 'gq',
+             'p3', 'x', 'y', 'z', 'x2', 'y2', 'z2', 'tx', 'ty', 'tz', 'tx5']
+
+
+def gen_tr(rng):
+    '''Twelve entries (origin, then the rows of an orthonormal matrix with
+    exactly representable entries): signed permutations and 3-4-5 rotations.'''
+    origin = [float(rng.choice([0, 1, -2, 0.5, 3.25])) for _ in range(3)]
+    perm = rng.sample(range(3), 3)
+    rows = []
+    for k in range(3):
+        row = [0.0, 0.0, 0.0]
+        row[perm[k]] = rng.choice([1.0, -1.0])
+        rows.append(row)
+    if rng.random() < 0.4:
+        c, s = rng.choice([(0.6, 0.8), (0.8, -0.6), (-0.6, 0.8), (0.28, 0.96)])
+        i, j = rng.sample(range(3), 2)
+        ri = [c * rows[i][k] + s * rows[j][k] for k in range(3)]
+        rj = [-s * rows[i][k] + c * rows[j][k] for k in range(3)]
+        rows[i], rows[j] = ri, rj
+    return origin + [v for row in rows for v in row]
+
+
+def impl_tr_card(mn, prm, tr):
+    '''to_surface_mcnp with a transform_id + convert_mcnp_surface.'''
+    from t4_geom_convert.Kernel.FileHandlers.Parser.ParseMCNPSurface import \
+        to_surface_mcnp
+    from t4_geom_convert.Kernel.Surface.ConversionSurfaceMCNPToT4 import \
+        convert_mcnp_surface
+    from t4_geom_convert.Kernel.Surface.ESurfaceTypeMCNP import string_to_enum
+    try:
+        with contextlib.redirect_stdout(io.StringIO()):
+            surf = to_surface_mcnp(1, '', '5', string_to_enum(mn),
+                                   [float(v) for v in prm], {5: list(tr)})
+            coll = convert_mcnp_surface(1, [(surf, 1)])
+    except Exception:                   # pylint: disable=broad-except
+        return None
+    out = []
+    for sub_surf, side in coll.surfs:
+        if sub_surf.transform is not None:
+            return 'transform'
+        out.append((sub_surf.type_surface.name,
+                    [float(v) for v in sub_surf.param_surface], int(side)))
+    return out
+
+
+def run_link_tie(res, rng, quick):
+    from props import c02
+    header = c02.HEADER.replace('C02.Exec.', 'C02.Text C02.LinkC04 C02.Exec.')
+    cases, meta = [], []
+    for _ in range(150 if quick else 1500):
+        tag = rng.choice(LINK_TAGS)
+        mn, prm = c02.gen_card(rng, tag)
+        if rng.random() < 0.08:
+            prm = prm[:-1] if rng.random() < 0.5 else prm + [1.0]
+        tr = gen_tr(rng)
+        out = impl_tr_card(mn, prm, tr)
+        res.seen(('trcard', mn, tuple(prm), tuple(tr)), nontrivial=True)
+        res.count('trcard:' + ('raised' if out is None else tag))
+        if out == 'transform' or (out and any(abs(sd) > 1 for _, _, sd in out)):
+            continue
+        exp = copt(out, lambda o: clist(
+            cpair(ty, c02.coq_floats(ps), cz(sd)) for ty, ps, sd in o))
+        cases.append(cpair(c02.coq_floats(tr), c02.MNEM[mn],
+                           c02.coq_floats(prm), exp))
+        meta.append((mn, prm, tr, out))
+    bad, errs = common.run_case_files('c02_trcard', header, 'trcard_case',
+                                      'check_trcard', cases)
+    res.obligation(f'tie:link-C04 ({len(cases)} cards with a TR number: C02 '
+                   'to_surface_mcnp + bridge to_ms + C04 transformation/'
+                   'convert = to_surface_mcnp(transform_id) + '
+                   'convert_mcnp_surface)', not bad and not errs,
+                   f'{len(bad)} disagreements {errs[:1]}')
+    for idx in bad[:6]:
+        res.violation('correspondence',
+                      f'tie:link-C04: linked model and implementation '
+                      f'disagree on {meta[idx]!r}'[:600],
+                      {'input': {'mnemonic': meta[idx][0],
+                                 'params': meta[idx][1], 'tr': meta[idx][2]},
+                       'observed': str(meta[idx][3]),
+                       'theorem_or_correspondence': 'tie:link-C04'},
+                      found_input=False)
+    if errs and not bad:
+        res.violation('correspondence', f'tie:link-C04: {errs[:1]}',
+                      {'theorem_or_correspondence': 'tie:link-C04'},
                       found_input=False)
